@@ -44,6 +44,8 @@ type simDriver struct {
 	cap *capWriter
 	n   int
 	mu  sync.Mutex
+	// arguments of the last START / STOP transition command sent to a task
+	pushed *Snap
 }
 
 func newSimDriver(workDir string) (*simDriver, error) {
@@ -65,6 +67,12 @@ func newSimDriver(workDir string) (*simDriver, error) {
 	the.VerifC08SetEventWriter(topic.Run, d.cap)
 	// hook tasks triggered: one record per trigger command, made when the core sends it
 	s.OnMsg = func(m *simcore.MsgRecord) {
+		if m.Name == "MesosCommand_Transition" && (m.Event == "START" || m.Event == "STOP") {
+			d.mu.Lock()
+			d.pushed = pushOf(m.Arguments)
+			d.mu.Unlock()
+			return
+		}
 		if m.Name != "MesosCommand_TriggerHook" {
 			return
 		}
@@ -175,6 +183,9 @@ func (d *simDriver) run(in Input) (obs Obs) {
 			rec.SetSlow(h, i, slowDelay)
 		}
 		rec.add(Rec{Kind: "O"})
+		d.mu.Lock()
+		d.pushed = nil
+		d.mu.Unlock()
 		var opErr error
 		done := make(chan struct{})
 		go func() {
@@ -209,6 +220,9 @@ func (d *simDriver) run(in Input) (obs Obs) {
 		if vs, err := env.Workflow().ConsolidatedVarStack(); err == nil {
 			oo.Vars = snapOf(vs)
 		}
+		d.mu.Lock()
+		oo.Push = d.pushed
+		d.mu.Unlock()
 		obs.Ops = append(obs.Ops, oo)
 		switch op.Ev {
 		case "START_ACTIVITY":
